@@ -47,6 +47,13 @@ VARIANTS = {
         cmake=[],
         simflags="-O1 -g",
         ldflags=WRAP),
+    # fixed-point, no sanitizer (valgrind-compatible; used to inspect replays)
+    "fixed-ship": dict(
+        cc="gcc", cxx="g++",
+        cflags="-O2 -g " + SEAM_DEFS,
+        cmake=["-DOPUS_FIXED_POINT=ON"],
+        simflags="-O1 -g -DOPSIM_FIXED",
+        ldflags=WRAP),
     # compile-only TSan instrumentation; the runtime is ours (sim/tsanrt.cc)
     "memtrace": dict(
         cc="clang", cxx="clang++",
